@@ -17,7 +17,7 @@ EXPLANATION = (
     "one reads or writes, and neither writes the status; (H3) with REPROC_MULTITHREADED the signal mask is manipulated with the "
     "per-thread primitive only; (H4) no non-reentrant libc function is called; (H5) a child closes every foreign descriptor "
     "(shared with C11), so a sibling started concurrently never keeps another child's pipe end open and end-of-file still "
-    "propagates.")
+    "propagates. Every reap and signal on the start path targets the pid fork() just returned to that call - never 0 or -1 (H7p).")
 ASSUMPTIONS = [
     "clang 14 parser/CFG and the fact extractor are correct", "libc functions called are thread-safe (read, write, close, poll, fcntl, malloc, strerror_r, ...)",
     "operations on different handles share no memory other than what H1 enumerates",
